@@ -237,7 +237,7 @@ pub fn drive_c02(a: &Args) {
     let fams = families(a, &mut rng);
     let mut prod = Out::create(&a.out, "c02_products.ndjson");
     let mut mgr = ReManager::new();
-    let full_every = if a.thorough() { 40 } else { 400 };
+    let full_every = if a.thorough() { 250 } else { 400 };
     for (id, f) in fams.iter().enumerate() {
         if id % 40 == 0 || f.fam == "adjacent-ranges" {
             // (creation order matters for that family: every term gets a fresh manager)
